@@ -184,18 +184,27 @@ def lifecycle_table(ctx, meths):
                f'[{label}] get_statement_info reports {got_n} parameters, expected {n}: one entry per collected placeholder', file=PREP, line=gi.lineno)
         # execution with m values
         for m in sorted({max(n - 1, 0), n, n + 1}) + [None]:
-            planner2 = Obj('QueryPlanner', statement=Obj('Statement', params=list(placeholders), columns=[]), query=query)
+            planner2 = Obj('QueryPlanner', statement=Obj('Statement', params=list(placeholders), columns=[]), query=query, plan=Obj('QueryPlan', steps=['step']))
             self2 = Obj('PreparedStatementPlanner', planner=planner2)
             values = None if m is None else [f'v{i}' for i in range(m)]
             log2 = []
             filled = Obj(kind, _filled=True)
+
+            def from_query(q=None, planner2=planner2, log2=log2):
+                # the real planner plans the statement it is handed, or - without one - whatever planner.query holds AT THAT MOMENT
+                log2.append(('plan', q if q is not None else planner2.attrs.get('query')))
+                return planner2.attrs['plan']
+            planner2.attrs['from_query'] = from_query
             stubs2 = {'utils.fill_query_params': lambda it, q, v: (log2.append(('fill', q, v)), filled)[1],
                       'fill_query_params': lambda it, q, v: (log2.append(('fill', q, v)), filled)[1],
-                      'copy.deepcopy': lambda it, x: x.clone() if isinstance(x, Obj) else x,
-                      'self.plan_query': lambda it, q: (log2.append(('plan', q)), ['step'])[1]}
+                      'copy.deepcopy': lambda it, x: x.clone() if isinstance(x, Obj) else x}
             it2 = Interp.for_file(ctx.src, PREP, isa, stubs2)
             try:
-                it2.call_function(ex, [self2] + ([] if values is None else [values]), {}, Env())
+                res2 = it2.call_function(ex, [self2] + ([] if values is None else [values]), {}, Env())
+                # the steps are produced lazily: by the time the caller reads them the planner may hold another statement (the next prepare)
+                planner2.attrs['query'] = Obj('Update', _another_statement=True)
+                if res2 is not None and not isinstance(res2, (list, tuple)):
+                    list(res2)
                 raised = None
             except Raised as r:
                 raised = r.exc_name
